@@ -79,6 +79,10 @@ FAMILIES = {
             "delays_ms": [None, None, 500, 1000, 1500]}),
     "latency": ([("q1", None, "NORMAL")], ["ta"], {"delays_ms": [300, 800, 1500, 86400000, 86400000, None], "ttls_ms": [None],
                 "sleeps_ms": [1, 100, 700], "consume_tmo_ms": [4000, 4000, 50], "weights": {"consume": 5, "enq": 5, "finish": 0}}),
+    # messages whose due time has already passed when they are enqueued / re-queued (a retry without back-off), behind
+    # far-future ones: they are deliverable at once, whatever else is waiting to fall due
+    "due-behind": ([("q1", None, "NORMAL")], ["ta"], {"delays_ms": [86400000, 86400000, -5, -5, 0, None], "ttls_ms": [None],
+                   "sleeps_ms": [1, 100, 700], "consume_tmo_ms": [4000, 4000, 50], "weights": {"consume": 5, "enq": 5, "requeue": 2, "finish": 0}}),
     "delay": ([("q1", None, "NORMAL")], ["ta"], {"delays_ms": [1, 250, 999, 1000, 1500, None], "ttls_ms": [None, None, 3000],
               "sleeps_ms": [1, 249, 250, 251, 998, 1000, 1002], "weights": {"consume": 6}}),
 }
@@ -118,7 +122,7 @@ def directed_maint():
 
 PER_PROPERTY = {
     "C01": ["n", "n+x", "n+d", "n+n", "topics", "2q", "same-due", "same-due-topics", "flush"],
-    "C05": ["delay", "latency", "n+d", "same-due"],
+    "C05": ["delay", "latency", "due-behind", "n+d", "same-due"],
     "C12": ["ttl", "n+x", "n"],
     "C14": ["n+n", "topics", "n+x", "2q", "maint", "maint-directed"],
     "C15": ["fifo1", "fifoprio", "fifo-ret", "starve", "pause", "pause-directed", "n"],
